@@ -73,6 +73,22 @@ Definition finish (mode : Z) (j : nat) (eps : Qc) (nv : nat) (counts : list nat)
   | _ => Err (-1)
   end.
 
+(* ---- what the dispatcher returns, in terms of the MODEL definitions (the fast evaluators are proved equal, not just tested):
+   mode 1 = (number of rows, A var + b of Model/C08_Forward.v, the given Born lists); modes 2 / 4 call the model definitions directly *)
+Lemma finish_mode1_spec j eps nv counts (dct : dict Fq) borns var :
+  same_width (calc_matA (F:=Fq) dct) = true -> (forall r, In r (calc_matA (F:=Fq) dct) -> (length r <= length var)%nat) ->
+  finish 1 j eps nv counts dct borns var
+  = Ok (qn (length (calc_matA (F:=Fq) dct)) :: affine (F:=Fq) (calc_matA (F:=Fq) dct) (calc_vecB (F:=Fq) dct) (vl (F:=Fq) var) ++ concat borns).
+Proof. intros Hw Hl. unfold finish. rewrite Hw. cbn [negb]. now rewrite affine_fast_eq by exact Hl. Qed.
+Lemma finish_mode2_spec j eps nv counts (dct : dict Fq) borns var : same_width (calc_matA (F:=Fq) dct) = true ->
+  finish 2 j eps nv counts dct borns var
+  = let rows := calc_prob_dists Fq eps (calc_matA (F:=Fq) dct) (calc_vecB (F:=Fq) dct) (vl (F:=Fq) var) counts in
+    Ok (qn (length rows) :: map (fun r => qn (length r)) rows ++ concat rows).
+Proof. intros Hw. unfold finish. rewrite Hw. reflexivity. Qed.
+Lemma finish_mode4_spec j eps nv counts (dct : dict Fq) borns var : same_width (calc_matA (F:=Fq) dct) = true ->
+  finish 4 j eps nv counts dct borns var = Ok (fisher_prob_dist Fq (calc_matA (F:=Fq) dct) (calc_vecB (F:=Fq) dct) (vl (F:=Fq) var) counts j).
+Proof. intros Hw. unfold finish. rewrite Hw. reflexivity. Qed.
+
 (* QST : zs = mode :: para :: d :: np :: m_1..m_np :: ns :: i_1..i_ns [:: j] *)
 Definition op_qst : opfun := fun zs qs =>
   match zs, qs with
@@ -114,6 +130,16 @@ Definition born_gate_fast (d : nat) (povm : list lv) (HS : rmat Fq) (s : lv) : l
 Lemma born_gate_fast_eq d povm HS s : born_gate_fast d povm HS s = born_gate Fq d povm HS s.
 Proof. unfold born_gate_fast, born_gate, born_povm_state. apply map_ext. intros pv. unfold born, dot.
   apply (sumn_ext (R:=Fq)). intros i Hi. now rewrite vfreeze_spec. Qed.
+
+(* the Born lists the QPT / QMPT ops hand to [finish] are the model's circuit semantics *)
+Lemma qpt_borns_fast_eq d para (states : list lv) (povms : list (list lv)) (scheds : list (nat * nat)) (var : list Qc) :
+  map (fun ik => born_gate_fast d (nth (snd ik) povms []) (hs_of_var Fq para (d * d) (vl (F:=Fq) var)) (nth (fst ik) states [])) scheds
+  = map (fun ik => qpt_born Fq d para (nth (fst ik) states []) (nth (snd ik) povms []) (vl (F:=Fq) var)) scheds.
+Proof. apply map_ext. intros ik. apply born_gate_fast_eq. Qed.
+Lemma qmpt_borns_fast_eq d para m (states : list lv) (povms : list (list lv)) (scheds : list (nat * nat)) (var : list Qc) :
+  map (fun ik => flat_map (fun x => born_gate_fast d (nth (snd ik) povms []) (hss_of_var Fq para (d * d) m (vl (F:=Fq) var) x) (nth (fst ik) states [])) (seq O m)) scheds
+  = map (fun ik => qmpt_born Fq d para m (nth (fst ik) states []) (nth (snd ik) povms []) (vl (F:=Fq) var)) scheds.
+Proof. apply map_ext. intros ik. unfold qmpt_born. apply flat_map_ext. intros x. apply born_gate_fast_eq. Qed.
 
 (* QPT : zs = mode :: para :: d :: nstates :: np :: m_1..m_np :: ns :: (i,k)_1..(i,k)_ns [:: j] *)
 Definition op_qpt : opfun := fun zs qs =>
